@@ -616,6 +616,15 @@ Section Flags.
                 | feq_tac | qs' ]
             end.
         + (* HLocal *)
+          destruct (starts_with (`"c:") name).
+          { (* the capture bracket *)
+            destruct (hv_tpl h) as [t|] eqn:Et; [|go2].
+            cbn [opt_ni] in Hv1.
+            match goal with
+            | |- context [log_entry (fl t1 a b c) ?x] =>
+                change (log_entry (fl t1 a b c) x) with (fl (log_entry t1 x) a b c)
+            end.
+            sim_scrut; [apply (fi_render_template f IH); [feq_tac|qs'|exact Hv1]| |]; norm; go2. }
           destruct (starts_with (`"e:") name); [|go2].
           match goal with
           | |- context [log_entry (fl t1 a b c) ?x] =>
